@@ -5,6 +5,7 @@ package resources
 
 import (
 	"context"
+	"strconv"
 
 	"github.com/NVIDIA/KAI-scheduler/pkg/common/constants"
 
@@ -29,6 +30,14 @@ func ExtractGPUSharingReceivedResources(ctx context.Context, pod *v1.Pod, kubeCl
 	}
 
 	fractionResource, err := calculateAllocatedFraction(ctx, pod, kubeClient)
+	if err == nil {
+		// a pod may hold several fractional devices: it is charged portion x count, like its request
+		if countStr, found := pod.Annotations[constants.GpuFractionsNumDevices]; found {
+			if count, parseErr := strconv.ParseInt(countStr, 10, 64); parseErr == nil && count > 1 {
+				fractionResource.Mul(count)
+			}
+		}
+	}
 	resources[constants.NvidiaGpuResource] = fractionResource
 	return resources, err
 }
